@@ -200,7 +200,12 @@ impl<T> Pool<T> {
         verif_point!("uget.pop");
         let obj = {
             let mut queue = inner.queue.lock().unwrap();
-            queue.pop().unwrap()
+            queue.pop()
+        };
+        // The queue can only be empty if the pool was closed (and cleared)
+        // after the permit had been obtained.
+        let Some(obj) = obj else {
+            return Err(PoolError::Closed);
         };
         permit.forget();
         verif_point!("uget.available");
@@ -241,7 +246,12 @@ impl<T> Pool<T> {
         verif_point!("uget.pop");
         let obj = {
             let mut queue = inner.queue.lock().unwrap();
-            queue.pop().unwrap()
+            queue.pop()
+        };
+        // The queue can only be empty if the pool was closed (and cleared)
+        // after the permit had been obtained.
+        let Some(obj) = obj else {
+            return Err(PoolError::Closed);
         };
         permit.forget();
         verif_point!("uget.available");
